@@ -4,6 +4,8 @@
   as an obligation in evidence/C15.json.
 -/
 import GocoinV.Model.Addr
+import GocoinV.Proofs.C15Base58
+import GocoinV.Proofs.C15Bech32d
 namespace GocoinV.Props.C15
 open GocoinV Bech32
 
@@ -65,5 +67,53 @@ theorem segwitDecode_sound (hrp s : Bytes) (v : Nat) (p : Bytes)
 example : (segwitDecode [98, 99] [66, 67, 49, 81, 87, 53, 48, 56, 68, 54, 81, 69, 74, 88, 84, 68, 71, 52, 89, 53, 82, 51, 90, 65, 82, 86, 65, 82, 89, 48, 67, 53, 88, 87, 55, 75, 86, 56, 70, 51, 84, 52]).toOption =
     some (0, [0x75, 0x1e, 0x76, 0xe8, 0x19, 0x91, 0x96, 0xd4, 0x54, 0x94, 0x1c, 0x45, 0xd1, 0xb3, 0xa3, 0x23, 0xf1, 0x43, 0x3b, 0xd6]) := by
   decide +kernel
+
+/-- Base58 is lossless: decoding the encoding of any non-empty byte string returns it unchanged
+    (leading zero bytes included). The alphabet is the one REGENERATED from lib/btc/addr.go. -/
+theorem b58_decode_encode (a : Bytes) (h : a ≠ []) : Base58.decode (Base58.encode a) = some a := by
+  open Base58 in
+  unfold Base58.decode Base58.encode
+  have hv : value? (List.replicate (leadingZeros a) (digitChar 0) ++ (digits (beVal a)).map digitChar) 0
+      = some (beVal a) := by
+    rw [value?_replicate_zero, value?_map _ (digits_lt _), ofDigits_digits]
+  rw [hv]
+  have htw : (List.takeWhile (fun x => x == digitChar 0)
+      (List.replicate (leadingZeros a) (digitChar 0) ++ (digits (beVal a)).map digitChar)).length
+      = leadingZeros a := by
+    rw [List.takeWhile_append_of_pos (by intro x hx; rw [List.eq_of_mem_replicate hx]; exact beq_self_eq_true _)]
+    have : List.takeWhile (fun x => x == digitChar 0) ((digits (beVal a)).map digitChar) = [] := by
+      cases hd : digits (beVal a) with
+      | nil => rfl
+      | cons d t =>
+        have hlt : d < 58 := digits_lt (beVal a) d (by rw [hd]; exact List.mem_cons_self)
+        have hne := digits_head_ne_zero (beVal a) d t hd
+        have := digitChar_ne_one ⟨d, hlt⟩ hne
+        simp only [List.map_cons]
+        rw [List.takeWhile_cons_of_neg (by simpa using this)]
+    rw [this]; simp
+  simp only [htw]
+  have hb : natBytes (beVal a) = a.dropWhile (· == 0) := natBytes_leVal_reverse a
+  rw [hb]
+  have hres : List.replicate (leadingZeros a) (0 : UInt8) ++ a.dropWhile (· == 0) = a :=
+    replicate_takeWhile_dropWhile a
+  rw [hres]
+  cases a with
+  | nil => exact absurd rfl h
+  | cons x t => rfl
+
+/-- non-vacuity / sanity: a 25-byte payload with leading zero round-trips by evaluation too -/
+example : Base58.decode (Base58.encode [0, 0, 1, 2, 255]) = some [0, 0, 1, 2, 255] :=
+  b58_decode_encode _ (by simp)
+
+/-- Bech32 / Bech32m "create then verify" for EVERY human-readable part, data part and variant: whatever
+    `bech32.Encode` (model, with the checksum step and tables regenerated from the Go source) produces for
+    a non-empty hrp, `bech32.Decode` reads back as the same (hrp, data, variant). The proof goes through
+    the GF(2)-linearity of the generated polymod step (Proofs/C15Bech32*.lean). -/
+theorem bech32_decode_encode (hrp data s : Bytes) (m : Bool) (hne : hrp ≠ [])
+    (h : Bech32.encode hrp data m = some s) : Bech32.decode s = some (hrp, data, m) :=
+  Bech32.decode_encode hrp data s m hne h
+
+/-- non-vacuity: the encoder does produce something for a usual input -/
+example : (Bech32.encode [98, 99] [0, 14, 20, 15] false).isSome = true := by decide +kernel
 
 end GocoinV.Props.C15
